@@ -12,9 +12,11 @@
    after(p) = [p∈lastpos]ε + Σ_{q∈followpos(p)} char(q)·after(q), both by structural induction.
    PER PATTERN (gen/cases_C10fp_*.v): the tree dumped from the implementation is numbered left to right, its nullable /
    firstpos / lastpos / followpos tables equal the model's, and the automaton ToDFA returns passes the certified check
-   against the tree's expression - hence is the position automaton of that tree (last theorem below). *)
+   against the tree's expression - hence is the position automaton of that tree; and the tree equals (modulo nesting and the
+   order of alternatives) [tree_of] of the model's reading of the pattern, for which [direct_route_is_the_documented_meaning_of_the_pattern]
+   gives the documented meaning, for every well-formed abstract pattern. *)
 From Coq Require Import String List Bool NArith.
-From Verif Require Import Reg.Followpos Reg.FollowposRe Reg.FollowposQuant.
+From Verif Require Import Reg.Followpos Reg.FollowposRe Reg.FollowposQuant Reg.FollowposPat.
 From Verif Require Import Base.CharSet Reg.Dfa Reg.Regex Reg.EquivCheck Reg.Pattern Reg.PatSem Reg.PatCheck.
 From VerifGen Require Import RuneGo.
 Import ListNotations.
@@ -113,3 +115,15 @@ Example quantify_example :
   quantified_as_modelled (NCat (NCons (NChar 97) NNil)) (QRange 1 (Some 2%nat))
     (NCat (NCons (NCat (NCons (NChar 97) (NCons (NAlt (NCons NEmpty (NCons (NChar 97) NNil))) NNil))) NNil)) = true.
 Proof. vm_compute. reflexivity. Qed.
+
+(* ---- from the abstract pattern to the automaton: the whole direct route ---- *)
+Theorem tree_of_a_pattern_denotes_its_documented_meaning :
+  forall p, wf_pat p -> forall w, lang (tree_of p) w <-> doc_sem p w.
+Proof. exact tree_of_correct. Qed.
+Print Assumptions tree_of_a_pattern_denotes_its_documented_meaning.
+
+Theorem direct_route_is_the_documented_meaning_of_the_pattern :
+  forall p em, wf_pat p -> ~ In em (chars (tree_of p)) ->
+    forall w, ~ In em w -> (Followpos.accepts (tree_of p) em w = true <-> doc_sem p w).
+Proof. exact direct_route_is_the_documented_meaning. Qed.
+Print Assumptions direct_route_is_the_documented_meaning_of_the_pattern.
